@@ -61,9 +61,14 @@ static RefVia refVia(const uint8_t *v, const unsigned n)
         while (q < b && isRws(v[q])) ++q;                      // RWS
         unsigned x = q;
         while (x < b && !isRws(v[x]) && v[x] != '(') ++x;      // received-by
-        if (protoOk && p > a && q > p && x - q == hl && refEqNoCase(v + q, (const uint8_t *)host, hl)) {
+        bool portOk = x - q == hl;                             // received-by = uri-host [ ":" port ]
+        if (x - q > hl + 1 && v[q + hl] == ':') {
+            portOk = true;
+            for (unsigned i = q + hl + 1; i < x; ++i) if (!((uint8_t)(v[i] - '0') < 10)) portOk = false;
+        }
+        if (protoOk && p > a && q > p && x - q >= hl && portOk && refEqNoCase(v + q, (const uint8_t *)host, hl)) {
             r.loose = true;
-            bool same = v[q - 1] == ' ' && b - x >= tl;        // Squid's own spelling: SP host SP "(squid)"
+            bool same = x - q == hl && v[q - 1] == ' ' && b - x >= tl;   // Squid's own spelling: SP host SP "(squid)"
             for (unsigned i = 0; same && i < hl; ++i) same = v[q + i] == (uint8_t)host[i];
             for (unsigned i = 0; same && i < tl; ++i) same = v[x + i] == (uint8_t)tail[i];
             if (same) r.exact = true;
@@ -83,7 +88,8 @@ static HttpRequest *parsedRequest(const Block &k, const Http::MethodType m)
     return req;
 }
 
-static void via(const char *via1, const char *via2, const bool onlyCandidateClass = false)
+static bool onlyViaSpelling = false; // set by c63_known_via_spelling only
+static void via(const char *via1, const char *via2)
 {
     fwdConfig(1);
     static Block k;
@@ -100,12 +106,13 @@ static void via(const char *via1, const char *via2, const bool onlyCandidateClas
     for (unsigned i = 0; i < n1; ++i) joined[jn++] = k.b[s1 + i];
     if (via2) { joined[jn++] = ','; for (unsigned i = 0; i < n2; ++i) joined[jn++] = k.b[s2 + i]; }
     const RefVia ref = refVia(joined, jn);
-    // KNOWN-FINDING candidate: loop detection is a case-sensitive substring search for " <unique_hostname> (<appname>)" in the Via
-    // value (client_side_request.cc: strListIsSubstr(&s, ThisCache2, ',')). A Via element that names this Squid but is not spelled
-    // exactly as this Squid writes it -- host name in another case, HTAB instead of SP before it, comment removed or changed by an
-    // intermediary (RFC 9110 7.6.3 allows removing comments), a port appended -- is not recognised, and the request is forwarded
-    // again. Only elements in Squid's own spelling are examined below.
-    vf_assume((ref.loose && !ref.exact) == onlyCandidateClass);
+    // KNOWN FINDING C63-via-spelling (known_findings.json): loop detection is a case-sensitive substring search for
+    // " <unique_hostname> (<appname>)" in the Via value (client_side_request.cc: strListIsSubstr(&s, ThisCache2, ',')). A Via element
+    // that names this Squid but is not spelled exactly as this Squid writes it -- host name in another letter case, HTAB instead of
+    // SP before it, comment removed or changed by an intermediary (RFC 9110 7.6.3 allows removing comments), a port appended -- is not
+    // recognised, and the request is forwarded again. The class is examined, with the same strict assertion, by its own entry
+    // (c63_known_via_spelling), whose violations are listed in known_findings.json; every other entry excludes exactly this class.
+    vf_assume((ref.loose && !ref.exact) == onlyViaSpelling);
 
     HttpRequest *req = parsedRequest(k, Http::METHOD_GET);
     ClientHttpRequest *http = rawObject<ClientHttpRequest>();
@@ -143,8 +150,19 @@ extern "C" void c63_via_position(void) { viaFamily(0, 2); }
 extern "C" void c63_via_spelling(void) { viaFamily(2, 2); }
 extern "C" void c63_via_context(void) { viaFamily(4, 2); }
 
-// not in a tier: examines ONLY the class excluded above (expected to report a violation; for triage of the KNOWN-FINDING candidate)
-extern "C" void c63_candidate_via_spelling(void) { via(ViaFamilies[0].v1, ViaFamilies[0].v2, true); }
+// KNOWN FINDING (known_findings.json, C63-via-spelling): Via elements naming this Squid in another spelling than Squid's own
+extern "C" void c63_known_via_spelling(void)
+{
+    onlyViaSpelling = true;
+    static const struct { const char *v1, *v2; } k[] = {
+        {" 1.0 fred" B B "1.1 " B "quid.example" B "(squid)", nullptr},   // letter case of the host name, HTAB/other byte before the comment
+        {" 1.0 fred, 1.1 " MYHOST B B, nullptr},                          // comment removed, port appended (':' digit)
+        {" 1.0 fred", " 1.1 " MYHOST " (squi" B B},                       // comment changed
+        {" 1.0 fred," B "1.1" B MYHOST " (squid)", nullptr},              // HTAB instead of SP before the host name
+    };
+    const unsigned f = (unsigned)vf_concretize(vf_range(0, 3, "family"));
+    via(k[f].v1, k[f].v2);
+}
 
 // ---- (M)
 static void maxForwards(const char *value)
